@@ -145,3 +145,86 @@ var _ *openfgav1.Userset
 //@   loop 1.2 invariant forall k string :: $visited[k] && has(weights, k) ==> has(edge.weights, k) && edge.weights[k] <= weights[k]
 //@   loop 1.2 invariant forall k string, i int :: 0 <= i && i < $i_1 && has(weights, k) ==> edges[i].weights[k] <= weights[k]
 //@   loop 1.2 invariant forall k string :: has(weights, k) ==> 0 <= weights[k] && weights[k] <= Infinite
+
+// ---------------------------------------------------------------------------------------------------------------
+// C11: wildcard lists. Abstract view of a list: the set of its elements (member). Representation invariant
+// (sepWildcards): the wildcard lists of two different holders (nodes, edges) never share a backing array, so growing
+// one list cannot change another. Every helper preserves it, extends exactly one list, and leaves all others alone.
+
+//@ spec member(s []string, w string) bool = exists i int :: 0 <= i && i < len(s) && s[i] == w
+
+//@ spec nodup(s []string) bool = forall i int, j int :: 0 <= i && i < j && j < len(s) ==> s[i] != s[j]
+
+//@ spec sepWildcards() bool =
+//@      (forall n *WeightedAuthorizationModelNode, m *WeightedAuthorizationModelNode :: allocated(n) && allocated(m) && n != m && arr(n.wildcards) != 0 ==> arr(n.wildcards) != arr(m.wildcards))
+//@   && (forall n *WeightedAuthorizationModelNode, e *WeightedAuthorizationModelEdge :: allocated(n) && allocated(e) && arr(n.wildcards) != 0 ==> arr(n.wildcards) != arr(e.wildcards))
+//@   && (forall e *WeightedAuthorizationModelEdge, f *WeightedAuthorizationModelEdge :: allocated(e) && allocated(f) && e != f && arr(e.wildcards) != 0 ==> arr(e.wildcards) != arr(f.wildcards))
+
+//@ func (*WeightedAuthorizationModelGraph).addWildcardToEdge
+//@   props C11 C06
+//@   requires edge != nil && sepWildcards()
+//@   ensures separated: sepWildcards()
+//@   ensures adds_exactly: forall w string :: member(edge.wildcards, w) <==> (old(member(edge.wildcards, w)) || w == wildcardType)
+//@   ensures no_duplicates: old(nodup(edge.wildcards)) ==> nodup(edge.wildcards)
+//@   ensures others_untouched_e: forall f *WeightedAuthorizationModelEdge :: allocated(f) && f != edge ==> f.wildcards == old(f.wildcards) && (forall i int :: 0 <= i && i < len(f.wildcards) ==> f.wildcards[i] == old(f.wildcards[i]))
+//@   ensures others_untouched_n: forall n *WeightedAuthorizationModelNode :: allocated(n) ==> n.wildcards == old(n.wildcards) && (forall i int :: 0 <= i && i < len(n.wildcards) ==> n.wildcards[i] == old(n.wildcards[i]))
+
+//@ func (*WeightedAuthorizationModelGraph).calculateEdgeWildcards
+//@   props C11 C06
+//@   requires wg != nil && edge != nil && edge.to != nil && wg.nodes[edge.to.uniqueLabel] != nil && sepWildcards()
+//@   ensures separated: sepWildcards()
+//@   ensures takes_target_list: old(len(edge.wildcards)) == 0 ==> (forall w string :: member(edge.wildcards, w) <==> old(member(wg.nodes[edge.to.uniqueLabel].wildcards, w)))
+//@   ensures keeps_existing:    old(len(edge.wildcards)) > 0 ==> edge.wildcards == old(edge.wildcards)
+//@   ensures no_duplicates:     old(nodup(edge.wildcards)) && old(nodup(wg.nodes[edge.to.uniqueLabel].wildcards)) ==> nodup(edge.wildcards)
+//@   ensures others_untouched_e: forall f *WeightedAuthorizationModelEdge :: allocated(f) && f != edge ==> f.wildcards == old(f.wildcards)
+//@   ensures others_untouched_n: forall n *WeightedAuthorizationModelNode :: allocated(n) ==> n.wildcards == old(n.wildcards)
+
+//@ func (*WeightedAuthorizationModelGraph).addEdgeWildcardsToNode
+//@   props C11 C06
+//@   requires wg != nil && edge != nil && wg.nodes[nodeID] != nil && sepWildcards()
+//@   ensures separated: sepWildcards()
+//@   ensures union: forall w string :: member(old(wg.nodes[nodeID]).wildcards, w) <==> (old(member(wg.nodes[nodeID].wildcards, w)) || old(member(edge.wildcards, w)))
+//@   ensures no_duplicates: old(nodup(wg.nodes[nodeID].wildcards)) && old(nodup(edge.wildcards)) ==> nodup(old(wg.nodes[nodeID]).wildcards)
+//@   ensures others_untouched_e: forall f *WeightedAuthorizationModelEdge :: allocated(f) ==> f.wildcards == old(f.wildcards) && (forall i int :: 0 <= i && i < len(f.wildcards) ==> f.wildcards[i] == old(f.wildcards[i]))
+//@   ensures others_untouched_n: forall n *WeightedAuthorizationModelNode :: allocated(n) && n != old(wg.nodes[nodeID]) ==> n.wildcards == old(n.wildcards) && (forall i int :: 0 <= i && i < len(n.wildcards) ==> n.wildcards[i] == old(n.wildcards[i]))
+//@   loop 1 invariant sepWildcards() && node == old(wg.nodes[nodeID]) && len(node.wildcards) > 0
+//@   loop 1 invariant len(node.wildcards) >= old(len(wg.nodes[nodeID].wildcards)) && (forall i int :: 0 <= i && i < old(len(wg.nodes[nodeID].wildcards)) ==> node.wildcards[i] == old(wg.nodes[nodeID].wildcards[i]))
+//@   loop 1 invariant forall i int :: old(len(wg.nodes[nodeID].wildcards)) <= i && i < len(node.wildcards) ==> (exists j int :: 0 <= j && j < $i && old(edge.wildcards[j]) == node.wildcards[i])
+//@   loop 1 invariant forall j int :: 0 <= j && j < $i ==> member(node.wildcards, old(edge.wildcards[j]))
+//@   loop 1 invariant old(nodup(wg.nodes[nodeID].wildcards)) ==> nodup(node.wildcards)
+//@   loop 1 invariant forall f *WeightedAuthorizationModelEdge :: allocated(f) ==> f.wildcards == old(f.wildcards) && (forall i int :: 0 <= i && i < len(f.wildcards) ==> f.wildcards[i] == old(f.wildcards[i]))
+//@   loop 1 invariant forall n *WeightedAuthorizationModelNode :: allocated(n) && n != node ==> n.wildcards == old(n.wildcards) && (forall i int :: 0 <= i && i < len(n.wildcards) ==> n.wildcards[i] == old(n.wildcards[i]))
+
+//@ func (*WeightedAuthorizationModelGraph).addReferentialWildcardsToNode
+//@   props C11 C06
+//@   requires wg != nil && wg.nodes[nodeID] != nil && wg.nodes[referentialNodeID] != nil && sepWildcards()
+//@   ensures separated: sepWildcards()
+//@   ensures union: forall w string :: member(old(wg.nodes[nodeID]).wildcards, w) <==> (old(member(wg.nodes[nodeID].wildcards, w)) || old(member(wg.nodes[referentialNodeID].wildcards, w)))
+//@   ensures no_duplicates: old(nodup(wg.nodes[nodeID].wildcards)) && old(nodup(wg.nodes[referentialNodeID].wildcards)) ==> nodup(old(wg.nodes[nodeID]).wildcards)
+//@   ensures others_untouched_e: forall f *WeightedAuthorizationModelEdge :: allocated(f) ==> f.wildcards == old(f.wildcards) && (forall i int :: 0 <= i && i < len(f.wildcards) ==> f.wildcards[i] == old(f.wildcards[i]))
+//@   ensures others_untouched_n: forall n *WeightedAuthorizationModelNode :: allocated(n) && n != old(wg.nodes[nodeID]) ==> n.wildcards == old(n.wildcards) && (forall i int :: 0 <= i && i < len(n.wildcards) ==> n.wildcards[i] == old(n.wildcards[i]))
+//@   loop 1 invariant node == old(wg.nodes[nodeID]) && referentialNode == old(wg.nodes[referentialNodeID]) && len(node.wildcards) > 0
+//@   loop 1 invariant node == referentialNode ==> node.wildcards == old(wg.nodes[nodeID].wildcards)
+//@   loop 1 invariant sepWildcards()
+//@   loop 1 invariant len(node.wildcards) >= old(len(wg.nodes[nodeID].wildcards)) && (forall i int :: 0 <= i && i < old(len(wg.nodes[nodeID].wildcards)) ==> node.wildcards[i] == old(wg.nodes[nodeID].wildcards[i]))
+//@   loop 1 invariant forall i int :: old(len(wg.nodes[nodeID].wildcards)) <= i && i < len(node.wildcards) ==> (exists j int :: 0 <= j && j < $i && old(wg.nodes[referentialNodeID].wildcards[j]) == node.wildcards[i])
+//@   loop 1 invariant forall j int :: 0 <= j && j < $i ==> member(node.wildcards, old(wg.nodes[referentialNodeID].wildcards[j]))
+//@   loop 1 invariant old(nodup(wg.nodes[nodeID].wildcards)) ==> nodup(node.wildcards)
+//@   loop 1 invariant forall f *WeightedAuthorizationModelEdge :: allocated(f) ==> f.wildcards == old(f.wildcards) && (forall i int :: 0 <= i && i < len(f.wildcards) ==> f.wildcards[i] == old(f.wildcards[i]))
+//@   loop 1 invariant forall n *WeightedAuthorizationModelNode :: allocated(n) && n != node ==> n.wildcards == old(n.wildcards) && (forall i int :: 0 <= i && i < len(n.wildcards) ==> n.wildcards[i] == old(n.wildcards[i]))
+
+//@ func (*WeightedAuthorizationModelGraph).addReferentialWildcardsToEdge
+//@   props C11 C06
+//@   requires wg != nil && edge != nil && wg.nodes[referentialNodeID] != nil && sepWildcards()
+//@   ensures separated: sepWildcards()
+//@   ensures union: forall w string :: member(edge.wildcards, w) <==> (old(member(edge.wildcards, w)) || old(member(wg.nodes[referentialNodeID].wildcards, w)))
+//@   ensures no_duplicates: old(nodup(edge.wildcards)) && old(nodup(wg.nodes[referentialNodeID].wildcards)) ==> nodup(edge.wildcards)
+//@   ensures others_untouched_e: forall f *WeightedAuthorizationModelEdge :: allocated(f) && f != edge ==> f.wildcards == old(f.wildcards) && (forall i int :: 0 <= i && i < len(f.wildcards) ==> f.wildcards[i] == old(f.wildcards[i]))
+//@   ensures others_untouched_n: forall n *WeightedAuthorizationModelNode :: allocated(n) ==> n.wildcards == old(n.wildcards) && (forall i int :: 0 <= i && i < len(n.wildcards) ==> n.wildcards[i] == old(n.wildcards[i]))
+//@   loop 1 invariant sepWildcards() && referentialNode == old(wg.nodes[referentialNodeID]) && len(edge.wildcards) > 0
+//@   loop 1 invariant len(edge.wildcards) >= old(len(edge.wildcards)) && (forall i int :: 0 <= i && i < old(len(edge.wildcards)) ==> edge.wildcards[i] == old(edge.wildcards[i]))
+//@   loop 1 invariant forall i int :: old(len(edge.wildcards)) <= i && i < len(edge.wildcards) ==> (exists j int :: 0 <= j && j < $i && old(wg.nodes[referentialNodeID].wildcards[j]) == edge.wildcards[i])
+//@   loop 1 invariant forall j int :: 0 <= j && j < $i ==> member(edge.wildcards, old(wg.nodes[referentialNodeID].wildcards[j]))
+//@   loop 1 invariant old(nodup(edge.wildcards)) ==> nodup(edge.wildcards)
+//@   loop 1 invariant forall f *WeightedAuthorizationModelEdge :: allocated(f) && f != edge ==> f.wildcards == old(f.wildcards) && (forall i int :: 0 <= i && i < len(f.wildcards) ==> f.wildcards[i] == old(f.wildcards[i]))
+//@   loop 1 invariant forall n *WeightedAuthorizationModelNode :: allocated(n) ==> n.wildcards == old(n.wildcards) && (forall i int :: 0 <= i && i < len(n.wildcards) ==> n.wildcards[i] == old(n.wildcards[i]))
